@@ -267,8 +267,8 @@ class Ctx:
         is a function of the repository's packages (a goroutine started by the library cannot be guarded by the
         driver): it is reported as a violation (the run itself stays incomplete).  Any other death of the
         driver is inconclusive."""
-        m = re.search(r"^(panic: .*|fatal error: .*)$", stderr, re.M)
-        g = re.search(r"^goroutine \d+ \[running\]:\n(?:panic\(.*\n\t.*\n|runtime\..*\n\t.*\n|github\.com/sirupsen/logrus\..*\n\t.*\n)*(\S+)\(", stderr, re.M)
+        m = re.search(r"^(panic: .*|fatal error: .*|SIG[A-Z]+: .*)$", stderr, re.M)
+        g = re.search(r"^goroutine \d+[^\n\[]*\[(?:running|syscall)[^\]\n]*\]:\n(?:panic\(.*\n\t.*\n|runtime\..*\n\t.*\n|github\.com/sirupsen/logrus\..*\n\t.*\n)*(\S+)\(", stderr, re.M)
         if not m or not g:
             return
         top = g.group(1)
